@@ -264,7 +264,9 @@ def inline_dyndep(g):
     for e in g2.edges:
         if e.dyndep and e.dyndep in g2.dd_info and e.out0 in g2.dd_info[e.dyndep]:
             io, ii, rs = g2.dd_info[e.dyndep][e.out0]
-            e.imp = e.imp + [x for x in ii if x not in e.manifest_ins()]
+            # ninja splices every dyndep-discovered input in as an IMPLICIT input, also when the manifest already lists it order-only
+            e.imp = e.imp + [x for x in ii if x not in e.exp + e.imp]
+            e.oo = [x for x in e.oo if x not in ii]
             e.hidden = [x for x in e.hidden if x not in ii]
             e.outs = e.outs + io; e.n_imp_out += len(io)
             e.restat = e.restat or rs
